@@ -13,7 +13,7 @@ From Coq Require Import String.
 From Coq Require Import List Ascii ZArith Bool.
 From CGV Require Import Base.PyBase Base.PyVal Base.NxGraph Gen.HydroGen Hydro.Hydrogens Hydro.Squash
      Hydro.SquashDefs Hydro.SquashProofs Hydro.SquashTotal Hydro.ShareProofs Hydro.QuotientDefs Hydro.QuotientProofs Hydro.BangBonds Hydro.BangGraph.
-From CGV Require Compose.CutModel Compose.CutSkeleton Compose.GraphAdj Hydro.ShareCut Hydro.ShareCutExamples.
+From CGV Require Compose.CutModel Compose.CutSkeleton Compose.GraphAdj Hydro.ShareCut Hydro.ShareCutTotal Hydro.SquashTotalAny Hydro.ShareCutExamples.
 From CGV Require Hydro.HydroCheck Hydro.SquashCheck.
 From CGV Require Resolve.GraphOps Resolve.CopyProofs Resolve.Bonding.
 Import ListNotations.
@@ -316,6 +316,55 @@ Theorem C10_share_vs_cut_resolver_nonvacuous : forall aa : bool,
                                      (ShareCut.pi_cut ShareCutExamples.exC ShareCutExamples.exD ShareCutExamples.ex_orig x)).
 Proof. exact ShareCutExamples.share_vs_cut_resolver_nonvacuous. Qed.
 
+(** totality at ANY level: at the coarse level the bond-creation step does not read the bonded atoms, so the
+    typedness is kept when it created no node (as many nodes after as before) *)
+Theorem C10_squash_total_resolver_any : forall fd legacy aa meta m1 fg1 m2 fg2, CopyProofs.wf_dict fd ->
+  GraphOps.resolve_disconnected fd meta = Ok (m1, fg1) -> GraphOps.bonding_step legacy aa meta m1 fg1 = Ok (m2, fg2) ->
+  length m2 = length m1 ->
+  wf_graph m2 -> hnum_g m2 -> bondings_ok (edge_attr_items m2 squash_edge_attr) ->
+  exists g', squash_atoms m2 = Ok g' /\ typed_g g' /\ wf_graph g' /\
+             (length g' + length (squash_plan [] (bang_items m2)) = length m2)%nat.
+Proof. exact SquashTotalAny.squash_total_resolver_any. Qed.
+(** and in the setting of C10_share_vs_cut_resolver squash_atoms RETURNS, at any level, once the hydrogen counts
+    of the bonded graph are numbers (wf, typedness and the descriptor-pair edge attributes are derived), with
+    one node fewer per merge *)
+Theorem C10_share_vs_cut_resolver_total : forall C D L aa orig fdC BC fdD BD,
+  CutModel.wf_cut C -> CutModel.templates_ok C fdC -> CutModel.is_base C BC -> CopyProofs.wf_dict fdC ->
+  CutModel.wf_cut D -> CutModel.templates_ok D fdD -> CutModel.is_base D BD ->
+  (aa = true -> forall x, In x (CutModel.flat C) ->
+     (exists e, aget (S "element") (CutModel.payload C x) = Some e) /\
+     exists h, aget (S "hcount") (CutModel.payload C x) = Some (VInt h)) ->
+  (aa = true -> forall x, In x (CutModel.flat D) ->
+     (exists e, aget (S "element") (CutModel.payload D x) = Some e) /\
+     exists h, aget (S "hcount") (CutModel.payload D x) = Some (VInt h)) ->
+  ShareCut.expands C D L orig ->
+  exists gs fgs gd fgd,
+    (st <- GraphOps.resolve_disconnected (fdmap (bangify L) fdC) BC ;;
+     GraphOps.bonding_step true aa BC (fst st) (snd st)) = Ok (gs, fgs) /\
+    (st <- GraphOps.resolve_disconnected fdD BD ;; GraphOps.bonding_step true aa BD (fst st) (snd st)) = Ok (gd, fgd) /\
+    (hnum_g gs -> exists g', squash_atoms gs = Ok g' /\
+      (length g' + length (squash_plan [] (bang_items gs)) = length gs)%nat /\
+      (forall y, In y (node_keys g') -> has_node gd (ShareCut.pi_cut C D orig y) = true) /\
+      (forall a, has_node gd a = true -> exists y, In y (node_keys g') /\ ShareCut.pi_cut C D orig y = a) /\
+      (forall y x, In y (node_keys g') -> In x (node_keys g') ->
+         ShareCut.pi_cut C D orig y = ShareCut.pi_cut C D orig x -> y = x) /\
+      (forall y x, In y (node_keys g') -> In x (node_keys g') ->
+         has_edge g' y x = has_edge gd (ShareCut.pi_cut C D orig y) (ShareCut.pi_cut C D orig x))).
+Proof. exact ShareCutTotal.share_vs_cut_resolver_total. Qed.
+(** the extra hypotheses hold on the example of C10_share_vs_cut_resolver_nonvacuous, at both levels *)
+Theorem C10_share_vs_cut_resolver_total_hypotheses :
+  ShareCutTotal.wf_dictb (CutModel.fragdict_of ShareCutExamples.exC) = true /\
+  forall aa : bool,
+    match (st <- GraphOps.resolve_disconnected (fdmap (bangify ShareCutExamples.exL) (CutModel.fragdict_of ShareCutExamples.exC))
+                   (CutModel.base_of ShareCutExamples.exC) ;;
+           GraphOps.bonding_step true aa (CutModel.base_of ShareCutExamples.exC) (fst st) (snd st)) with
+    | Ok (gs, _) => hnum_gb gs = true
+    | Err _ => False
+    end.
+Proof. exact ShareCutExamples.share_vs_cut_resolver_total_hypotheses. Qed.
+Theorem C10_wf_dict_decidable : forall fd, ShareCutTotal.wf_dictb fd = true -> CopyProofs.wf_dict fd.
+Proof. exact ShareCutTotal.wf_dictb_sound. Qed.
+
 (** one level up (bond creation, Resolve/Bonding.v with the generated [compatible]): a single descriptor pair
     between two coarse nodes makes exactly one bond — u-v for the `$` pair, v'-v for the `!` pair *)
 Theorem C10_single_pair_bond : forall legacy arom A B x y c t o, A <> B -> (c = "$"%char \/ c = "!"%char) ->
@@ -382,3 +431,7 @@ Print Assumptions C10_share_vs_cut_skeletons.
 Print Assumptions C10_share_vs_cut_resolver.
 Print Assumptions C10_expands_decidable.
 Print Assumptions C10_share_vs_cut_resolver_nonvacuous.
+Print Assumptions C10_squash_total_resolver_any.
+Print Assumptions C10_share_vs_cut_resolver_total.
+Print Assumptions C10_wf_dict_decidable.
+Print Assumptions C10_share_vs_cut_resolver_total_hypotheses.
